@@ -42,6 +42,8 @@ def main():
         from zx.drivers import proto_run as drv
     elif fam == 'incr':
         from zx.drivers import incr_run as drv
+    elif fam == 'clean':
+        from zx.drivers import clean_run as drv
     elif fam == 'resolve':
         from zx.drivers import resolve_run as drv
     else:
